@@ -303,7 +303,7 @@ struct WL {
                                                    OP_ASYNC_VOID_THROW, OP_DETACH_THROW,
                                                    OP_DETACH_THROW};
                         bool thr = !strcmp(gsim::param("mode", "std"), "throw");
-                        gsim::prog_add(t, {pool[gsim::gen_int(thr ? 10 : 8)], gsim::gen_int(3) == 0 ? 1 : 0, 0,
+                        gsim::prog_add(t, {pool[gsim::gen_int(thr ? 10 : 9)], gsim::gen_int(3) == 0 ? 1 : 0, 0,
                                            (!thr && gsim::gen_int(12) == 0) ? 1 : 0});
                     } else {
                         gsim::prog_add(t, {gsim::gen_int(6) == 0 ? OP_LOAD : OP_READ,
@@ -316,7 +316,15 @@ struct WL {
         gsim::enable_fault(gsim::F_TIME_JUMP, gsim::knob("time_jump", 0, 1) * 20);
         gsim::enable_fault(gsim::F_STALE_READ, gsim::knob("stale", 0, 1) * 200);
         gsim::set_rw_pref(gsim::knob("rw_pref", 0, 1));
-        dg = new DG();
+        switch (gsim::knob("ctor", 0, 2)) {
+            case 1: dg = new DG(Cell(0)); break;
+            case 2: {
+                Cell init(0);
+                dg = new DG(init);
+                break;
+            }
+            default: dg = new DG(); break;
+        }
         {
             auto h = static_cast<const DG*>(dg)->lock_shared();
             Cell::tracked = &*h;
